@@ -211,4 +211,14 @@ theorem stepLocal_done (F : Flags) (o : Obs) (x : Act) (ev : Ev) (y : Act) (eff 
     | (exfalso; have := afterDefer_mid hd; cases this; done)
     | (exfalso; have := next_mid hd; cases this; done))
 
+theorem exFin_of_mid {p : Phase} (h : midPhase p = true) : exFin p = false := by
+  cases p <;> simp [midPhase] at h <;> rfl
+
+theorem exFin_next (x : Act) (cs : List Cmd) (i : Nat) : exFin (x.next cs i).phase = false :=
+  exFin_of_mid (next_mid rfl)
+theorem exFin_afterCmd (x : Act) (c : Cmd) (r : Res) : exFin (x.afterCmd c r).phase = false :=
+  exFin_of_mid (afterCmd_mid rfl)
+theorem exFin_afterDefer (x : Act) : exFin x.afterDefer.phase = false :=
+  exFin_of_mid (afterDefer_mid rfl)
+
 end TaskModel.Sched
